@@ -136,6 +136,12 @@ def run(ctx):
                  why_fail=f"prefix(es) {missing} are not bound: an attribute column using them yields an unbound prefix")
     r1.check("xmlns" in nsmap and nsmap.get("xmlns") == "http://www.w3.org/2002/xforms", "NSMAP[xmlns]", "default namespace is XForms", "pyxform/constants.py")
     r1.check(nsmap.get("xmlns:h") == "http://www.w3.org/1999/xhtml", "NSMAP[xmlns:h]", "h: is XHTML", "pyxform/constants.py")
+    # the standard prefixes of an ODK XForm are always bound (ODK XForms spec, "Namespaces"): authors use them on
+    # attribute columns (body::ev:event, bind::odk:..., instance::orx:...) without declaring anything themselves
+    STANDARD_NS = {"xmlns:ev": "http://www.w3.org/2001/xml-events", "xmlns:xsd": "http://www.w3.org/2001/XMLSchema", "xmlns:jr": "http://openrosa.org/javarosa",
+                   "xmlns:orx": "http://openrosa.org/xforms", "xmlns:odk": "http://www.opendatakit.org/xforms"}
+    for k_, v_ in STANDARD_NS.items():
+        r1.check(nsmap.get(k_) == v_, f"NSMAP[{k_}]", f"the standard prefix is bound to {v_}", "pyxform/constants.py", why_fail=f"got {nsmap.get(k_)!r}")
     rules.append(r1)
 
     # ------------------------------------------------------------------ R2
@@ -428,6 +434,41 @@ def name_validator_rule(ctx, prop, rid):
     ixt = ctx.func("pyxform.parsing.expression:is_xml_tag", rid)
     uses = [n for n in ast.walk(ixt.node) if isinstance(n, ast.Name) and n.id == "RE_ONLY_NCNAME"]
     r.check(bool(uses), "is_xml_tag:pattern", "is_xml_tag decides with that pattern", ixt.loc())
+    # ... and with nothing else: the function itself, evaluated on names around the edges of the Name production (an
+    # oracle built from the XML 1.0 NameStartChar / NameChar tables, not from the pattern)
+    def _is_ncname(t):
+        def inr(ch, table):
+            return any(lo <= ord(ch) <= hi for lo, hi in table)
+        return bool(t) and inr(t[0], R.NCNAME_START) and all(inr(c, R.NCNAME_CHAR) for c in t[1:])
+
+    def _is_qname(t):
+        parts = t.split(":")
+        return len(parts) in (1, 2) and all(_is_ncname(p_) for p_ in parts)
+    samples = ["q1", "_x", "a.b", "a-b", "caf\u00e9", "cafe\u0301", "\u00e9t\u00e9", "dose_\u00b5g", "n\u00aa", "n\u00ba_1", "a\u00b7b", "\u00b7a", "1a", "-a", ".a", "a b", "a\tb", "", " ", "a%b", "a/b", "a:b", "a:b:c", ":a", "a:",
+               "\u0660", "a\u0660", "\u2160x", "x\u2160", "\u00d7", "a\u00d7", "\u00f7a", "\u037e", "a\u037e", "\u203f", "a\u203f", "\u2040a", "\U00010000", "a\U00010000", "\ufffe", "a\ufdd0", "x" * 200, "A_b.c-9"]
+    bad_s = []
+    for t in samples:
+        itn = ctx.interp(rid)
+        itn.reset([])
+        try:
+            got = bool(itn.call_function(ixt, [t], {}, None, ixt.node))
+        except Raised as e:
+            got = f"raises {e.exc_name}"
+        want = _is_qname(t)
+        # the validator may be stricter than XML (rejecting a valid name is not an ill-formed document); it must never accept a non-name
+        if got is True and not want:
+            bad_s.append(f"{t!r} accepted")
+        elif got not in (True, False):
+            bad_s.append(f"{t!r}: {got}")
+    r.check(not bad_s, "is_xml_tag[names around the edges of the XML Name production]", f"{len(samples)} names: nothing that is not an XML name is accepted", ixt.loc(), why_fail="; ".join(bad_s[:4]))
+    must_accept = ["q1", "_x", "a.b", "a-b", "caf\u00e9", "A_b.c-9", "cafe\u0301", "a\u00b7b"]
+    rej = []
+    for t in must_accept:
+        itn = ctx.interp(rid)
+        itn.reset([])
+        if itn.call_function(ixt, [t], {}, None, ixt.node) is not True:
+            rej.append(t)
+    r.check(not rej, "is_xml_tag[ordinary valid names]", "ordinary valid names (letters, digits, '.', '-', '_', accents, combining marks) are accepted", ixt.loc(), why_fail=f"rejected {rej}")
     # the element validator refuses every name the pattern rejects - also one made of individually allowed characters
     se = ctx.repo.cls("pyxform.survey_element:SurveyElement")
     sev = se.methods["validate"]
